@@ -185,6 +185,11 @@ class AcTimerStatusDecoder(
             )
             self._mismatch_logged = True
 
+        # This version of the protocol has no data in front of the repeated
+        # records. The header says how much there is, to be skipped if a later
+        # version adds some.
+        buffer = buffer[header.non_repeat_length :]
+
         acs: list[AcTimerStatusData] = []
         for _ in range(header.repeat_count):
             acs.append(
